@@ -29,6 +29,16 @@ fn tree(name: &str) -> Files {
             f.insert("f".into(), X.to_vec());
             f.insert("d/g".into(), Z.to_vec());
         }
+        "fX+zW" => {
+            f.insert("f".into(), X.to_vec());
+            f.insert("z/h".into(), b"W-later-path".to_vec());
+        }
+        "dotcopia" => {
+            // top-level names that merely BEGIN with ".copia" are ordinary files
+            f.insert(".copiaignore".into(), Y.to_vec());
+            f.insert(".copia-notes/x".into(), Z.to_vec());
+            f.insert("f".into(), X.to_vec());
+        }
         "hub-f" => {
             f.insert("f".into(), C0.to_vec());
         }
@@ -114,7 +124,7 @@ fn post_ok(local: &Files, hub_before: &Files, hub_after: &Files, r: &RunRes) -> 
 }
 
 fn sequential_part(thorough: bool, evals: &AtomicU64, nontrivial: &AtomicU64) -> Vec<Violation> {
-    let locals = ["fX", "fY", "fX+dgZ", "empty"];
+    let locals = ["fX", "fY", "fX+dgZ", "empty", "dotcopia"];
     let hubs = ["empty", "hub-f", "hub-h"];
     let mut seqs: Vec<Vec<usize>> = Vec::new();
     let maxlen = if thorough { 3 } else { 2 };
@@ -394,7 +404,7 @@ pub fn run(ctx: &Ctx) -> ! {
     let pairs: Vec<(&str, &str, &str, bool)> = if thorough {
         let mut v = Vec::new();
         for hubn in ["empty", "hub-f"] {
-            for (a, b) in [("fX", "fY"), ("fX", "fX"), ("fX+dgZ", "fY"), ("fX", "empty"), ("fX+dgZ", "fX+dgZ"), ("fY", "fX+dgZ")] {
+            for (a, b) in [("fX", "fY"), ("fX", "fX"), ("fX+dgZ", "fY"), ("fX", "empty"), ("fX+dgZ", "fX+dgZ"), ("fY", "fX+dgZ"), ("fX+zW", "fY"), ("fX+zW", "fX+dgZ")] {
                 v.push((hubn, a, b, false));
             }
         }
@@ -402,7 +412,7 @@ pub fn run(ctx: &Ctx) -> ! {
         v.push(("empty", "fX+dgZ", "fY", true));
         v
     } else {
-        vec![("hub-f", "fX", "fY", false), ("empty", "fX+dgZ", "fY", false), ("hub-f", "fX", "fY", true)]
+        vec![("hub-f", "fX", "fY", false), ("empty", "fX+dgZ", "fY", false), ("hub-f", "fX+zW", "fY", false), ("hub-f", "fX", "fY", true)]
     };
     let specs: Vec<(String, System)> = pairs
         .iter()
